@@ -15,7 +15,8 @@ def families(tier, seed):
     for sd in seeds:
         for tag, feats, ps in gen.c16_cases(sd):
             dt = feats.get("dt", 0.05)
-            out.append(dict(tag=f"{tag}/s{sd}", features=feats, kind="population", ps=ps, T=10 * dt if dt >= 0.05 else 0.5, dt=dt))
+            out.append(dict(tag=f"{tag}/s{sd}", features=feats, kind="population", ps=ps, T=10 * dt if dt >= 0.05 else 0.5, dt=dt,
+                            explicit_route=tag.split("-")[0] in ("P1", "P2", "P3", "P6")))
             # the same meaning under an adaptive solver (plain matrices, scalar weights, coupling edges, gamma-kernel delays)
             if sd == seeds[0] and tag.split("-")[0] in ("P2", "P3", "P6", "P7", "P9"):
                 out.append(dict(tag=f"{tag}/s{sd}/scipy", features=dict(feats, solver="scipy"), kind="population", ps=ps, T=0.5, dt=0.01, solver="scipy"))
@@ -31,7 +32,7 @@ def main():
              "non-symmetric, non-square weight matrices between one or two populations; scalar weights (w * sum_j source_j); a "
              "one-unit hub with params; Connectivity delays (discrete, incl. 0.3/0.1) and gamma kernels ((d,s) with round-up and "
              "inexact ratios), coupling-edge templates; the adaptive solver on a subset (matrices, scalar weights, gamma kernels, coupling "
-             "edges) against a fine-grid reference; each unit's Euler trajectory against the spec of the explicit network with one node per unit and "
+             "edges) against a fine-grid reference; for plain matrices, scalar weights and gamma kernels also the explicit network built through PyRates (scalar edges, vectorize off); each unit's Euler trajectory against the spec of the explicit network with one node per unit and "
              "one scalar edge per non-zero matrix entry; distinct = (scenario, seed)",
         sample_of=lambda c: {k: v for k, v in c.items() if k != "features"})
     driver.run_sequences(chk, "population-vs-explicit-network-in-sequence", _cases, _results, cases.case_fn, site="C16/population",
